@@ -100,6 +100,45 @@ def run(ctx):
                 call = g[2][1][1]
                 good = good and call[2][1] == ("sub", side, k) and side in (SELF, other)
         ctx.ob("C20.R1", fi, good, "an entry fails when its key is missing on the other side or the values differ", key="failure condition")
+        # what "the values differ" means: the comparison helper is plain `==` (so nested containers and lists recurse through their own
+        # __eq__ and agree with dict equality), with the one special case of numpy arrays; a hand-written descent into lists must compare
+        # the lengths too (zip stops at the shorter list: a strict prefix would compare equal)
+        callees = set()
+        for p in fails:
+            g = p.guards()[-1]
+            if g[0] == "bool" and len(g[2]) == 2 and g[2][1][0] == "not" and g[2][1][1][0] == "call":
+                callees.add(g[2][1][1][1])
+        helper = None
+        if len(callees) == 1:
+            cal = next(iter(callees))
+            if cal[0] == "closure":
+                helper = next((cl for cl in M.closures(fi) if cl.qual == cal[1] or cl.name == cal[1].split(".")[-1]), None)
+            elif cal[0] == "free" and cal[1] in M.functions:
+                helper = M.function(cal[1])
+        if helper is None:
+            ctx.error("C20.R1 undecided: the value comparison used by Container.__eq__ is not a local or package-level function (%s)" % sorted(map(N.show, callees)))
+        else:
+            hp = paths_of(ctx, helper, None)
+            a = [x.arg for x in helper.node.args.posonlyargs + helper.node.args.args]
+            okh = len(a) == 2
+            undec = []
+            for p in hp:
+                if not p.returns or not okh:
+                    continue
+                v1, v2 = ("param", a[0]), ("param", a[1])
+                if p.retval in (N.mk_cmp("==", v1, v2), N.mk_cmp("==", v2, v1)):
+                    continue
+                if any(x[0] == "cmp" and x[1] == "==" and N.const("ndarray") in x[2:] for c in p.guards() for x in N.walk(c)):
+                    continue
+                zips = [x for x in N.walk(p.retval) if x[0] == "call" and x[1] == ("free", "zip")]
+                if zips:
+                    lens = N.mk_cmp("==", ("call", ("free", "len"), (v1,), ()), ("call", ("free", "len"), (v2,), ()))
+                    okh = okh and lens in p.guards()
+                else:
+                    undec.append(N.show(p.retval))
+            if undec:
+                ctx.error("C20.R1 undecided: %s compares values in a form the rule does not know (%s)" % (helper.qual, undec[0][:120]))
+            ctx.ob("C20.R1", helper, okh, "%s is plain `==` apart from the numpy case; an element-wise descent over zip() is guarded by equal lengths" % helper.qual, key="value comparison")
         alltrue = [p for p in paths if p.retval == N.TRUE and p is not idp[0]] if idp else []
         lids = {loops[0]["lid"], loops[1]["lid"]}
         done = lambda p: {e["lid"] for e in p.events if e.kind == "LOOPEND" and e["how"] in ("exhausted", "zero")} >= lids
@@ -280,6 +319,14 @@ def run(ctx):
     ctx.ob("C20.R5", fi_l, bool(trs) and all(any(set(h) & {"Exception", "BaseException", "*"} for h in t["handlers"]) for t in trs) or
            any(isinstance(n, ast.Call) and isinstance(n.func, ast.Name) and n.func.id == "isinstance" for n in ast.walk(fi_l.node)),
            "ListContainer._search skips unsearchable items with `except Exception` (an int item raises AttributeError, not a ConstructError)", key="ListContainer search handler")
+    # a handler that skips an entry sits *inside* the loop over the entries: wrapped around the loop, the first entry that raises (a key that
+    # is not a string makes pattern.match raise TypeError) ends the scan and every later match is lost
+    for cls in sorted(searchable):
+        fi_s, paths_s = own_method_paths(ctx, cls, "_search")
+        trs = uniq_events(paths_s, "TRY")
+        if not trs:
+            continue
+        ctx.ob("C20.R5", fi_s, all(t.loops for t in trs), "%s._search: every swallowing try statement lies inside the loop over the entries (one bad entry must not end the scan)" % cls, key="%s handler per entry" % cls)
     # the public functions call _search with the compiled pattern and the right mode: search -> first match, search_all -> all matches
     comp = ("call", ("attr", ("free", "re"), "compile"), (("param", "pattern"),), ())
     for cls in ("Container", "ListContainer"):
